@@ -231,11 +231,25 @@ class Generator(TreeListener):
     def exitPrimary(self, tree):
         self.src[tree] = tree.value
 
+    def _first_output_of_nested_calls(self, operands):
+        # A call of a function with several outputs that is an operand of another
+        # expression denotes the first output only (Modelica spec 12.4.3).
+        for operand in operands:
+            if isinstance(operand, ast.Expression):
+                name = getattr(operand.operator, "name", operand.operator)
+                func = self.functions.get(name)
+                if func is not None and func.n_out() > 1 and operand in self.src:
+                    src = ca.MX(self.src[operand])
+                    if src.size1() == func.n_out():
+                        self.src[operand] = src[0]
+
     def exitExpression(self, tree):
         if isinstance(tree.operator, ast.ComponentRef):
             op = tree.operator.name
         else:
             op = tree.operator
+
+        self._first_output_of_nested_calls(tree.operands)
 
         if op == "*":
             op = "mtimes"  # .* differs from *
@@ -409,6 +423,7 @@ class Generator(TreeListener):
 
         assert len(tree.conditions) + 1 == len(tree.expressions)
 
+        self._first_output_of_nested_calls(tree.conditions + tree.expressions)
         src = self.get_mx(tree.expressions[-1])
         for cond_index in range(len(tree.conditions)):
             cond = self.get_mx(tree.conditions[-(cond_index + 1)])
